@@ -146,10 +146,6 @@ class F:
             res = "const %s &" % self.rescls
         else:
             res = RESULT_DECL[self.result]
-        if self.result == "string" and any(p.default is not None for p in self.params):
-            # (`const std::string SHCXX_rv;` is declared before the default-argument switch and assigned
-            #  inside it: the generated file does not compile - outside C03, see C05)
-            res = "std::string"
         return "%s%s %s(%s)" % ("static " if self.static else "", res, self.name, args)
 
     @property
@@ -286,10 +282,10 @@ def _body(f, language):
             lines.append("Pt r_; r_.x = %d; r_.y = %r; return r_;" % v)
         elif f.result == "ivec":
             lines.append("std::vector<int> r_; r_.push_back(2); r_.push_back(4); r_.push_back(6); return r_;")
-        elif f.result == "clsptr_res":
-            lines.append("static %s r_(%d); return &r_;" % (f.rescls, v))
-        elif f.result == "clsref_res":
-            lines.append("static %s r_(%d); return r_;" % (f.rescls, v))
+        elif f.result in ("clsptr_res", "clsref_res"):
+            # the library's own object, made on first use (its construction is not part of the call's trace)
+            lines.append("static %s *r_ = 0; if (!r_) { size_t k_ = strlen(subj_trace_buf); r_ = new %s(%d); "
+                         "subj_trace_buf[k_] = 0; } return %sr_;" % (f.rescls, f.rescls, v, "" if f.result == "clsptr_res" else "*"))
         else:
             lines.append("return %s;" % v)
     return " ".join(lines)
@@ -438,7 +434,9 @@ def rand_function(r, language, name, cls_arg=None, nmax=4, in_cls=None, static=F
             params.append(P(k, "d%d" % j, default=dv))
     res = r.choice(["void", "void", "int", "long", "double", "bool", "cstr"] +
                    (["string", "enum", "pt", "ivec"] if language != "c" else []))
-    if res in ("pt", "ivec") and any(p.default is not None for p in params):
+    if res in ("pt", "ivec") and any(p.default is not None or p.kind not in CTYPE for p in params):
+        # (a struct / vector result allocates before the declarations of std::string, std::vector and class
+        #  locals: `goto fail` crosses their initialisation and the file does not compile - outside C03, see C05)
         res = "int"
     return F(name, res, params, cls=in_cls, static=static, label=(in_cls + "." if in_cls else "") + name)
 
